@@ -69,6 +69,16 @@ func Boot() {
 }
 
 func quiet() {
+	if os.Getenv("VERIF_MOSN_LOG") != "" {
+		// debugging aid: MOSN's error log (recovered panics are reported there) goes to the test's stdout
+		lv := log.ERROR
+		if os.Getenv("VERIF_MOSN_LOG") == "debug" {
+			lv = log.DEBUG
+		}
+		log.DefaultLogger.SetLogLevel(lv)
+		log.Proxy.SetLogLevel(lv)
+		return
+	}
 	log.DefaultLogger.SetLogLevel(log.FATAL)
 	log.Proxy.SetLogLevel(log.FATAL)
 	log.StartLogger.SetLogLevel(log.FATAL)
